@@ -87,6 +87,7 @@ package fscache
 //@   ensures !isDirName(pathPart(result, pathLen(result)-1))                               # name: file-is-unmarked   props: C14
 //@   ensures !isTempName(result)                                                           # name: never-a-temporary-name   props: C14 C15
 //@   loop 0 invariant 0 <= i && len(encoded) - i >= 1 && b64Text(encoded)
+//@   loop 0 decreases len(encoded) - i                                                    # name: fragmenting-terminates   props: C14
 //@   loop 0 invariant forall j int :: 0 <= j && j < len(parts) ==> isDirName(parts[j]) && sepFree(parts[j])
 
 // AES-GCM encryptor (C17): Encrypt draws a fresh nonce from e.r on every call and returns
